@@ -144,6 +144,10 @@ def effects(F, b, depth=0, subst=None):
     unknown = []
     for w in assigns(b, R):
         tgt = w.target
+        if w.owned:
+            # a write into storage owned by this body (a by-value copy of a slot array, a local accumulator) is no effect on the tree --
+            # whatever the copied value was read from
+            continue
         # self.root := v
         if tgt == ('field', ('param', 'self'), 'root'):
             out.append(Eff('root', w.bb, value=w.value, span=w.span))
